@@ -377,8 +377,12 @@ def run(ctx, replay=None):
         if key in SUSPECTED:
             suspected_hits[key] = what
             continue
-        # a new crash: minimise and store the input, then report with a replay that re-runs exactly this case
         r0 = rs[0]
+        if any(k.get("status") == "finding" and k["property"] == ctx.pid and k["key"] == key for k in ctx.known):
+            # a recorded finding: printed as KNOWN-FINDING, its stored minimal input is part of the corpus (no new minimisation)
+            ctx.violation(key, what, {})
+            continue
+        # a new crash: minimise and store the input, then report with a replay that re-runs exactly this case
         try:
             data, how = minimise(ctx, r0)
         except Exception as e:      # minimisation is best effort
